@@ -111,6 +111,14 @@ fn check_symbol_opts(ctx: &mut Ctx, family: &str, s: &RS, corpus: bool, light: b
     ctx.states += stats.runs;
     ctx.transitions += stats.runs;
     ctx.traces += stats.runs;
+    if let Some(sch) = &stats.result_diverged {
+        ctx.violation("history-dependent", json!({"family": family, "sym": rs_to_json(s), "schedule": sch}), "is_euclidean gave two different verdicts for the same symbol under the same schedule of the choice point: the verdict depends on the call history".into(), weight);
+        return;
+    }
+    if let Some(why) = &stats.unreplayable {
+        ctx.add("inputs_not_replayable", 1);
+        ctx.cap_hit(format!("G3 could not enumerate deviations for a {}-chamber symbol of family {}: {}; only the schedules visited before count", s.n, family, why));
+    }
     ctx.add("schedules_run", stats.runs as i64);
     ctx.max("choice_points_max", stats.choice_points_max as i64);
     let base = match base {
@@ -297,6 +305,9 @@ fn call_sequence_family(ctx: &mut Ctx) {
             }
         }
     }
+    let mut spheres = spheres;
+    spheres.sort_by_key(|(_, s)| std::cmp::Reverse(s.n));
+    tori.sort_by_key(|(_, s)| std::cmp::Reverse(s.n));
     if spheres.is_empty() || tori.is_empty() {
         ctx.cap_hit("call-sequence family: no large symbols could be built; the family was NOT run".into());
         return;
@@ -328,6 +339,13 @@ fn call_sequence_family(ctx: &mut Ctx) {
         if *is_torus && v.class() != 'Y' {
             ctx.violation("call-sequence", scase, format!("step {}: a finite cover of a known-euclidean symbol ({} chambers) gets {:?}", step, s.n, v), s.n as u64);
             return;
+        }
+        if !*is_torus && v.class() == 'Y' {
+            // a yes must be backed by a certificate; a tiling of the 3-sphere has none
+            if let Err(e) = certificate(ctx, s) {
+                ctx.violation("call-sequence", scase, format!("step {}: {} ({} chambers) gets yes without a certificate: {}", step, name, s.n, e), s.n as u64);
+                return;
+            }
         }
         let f = *first.entry(name.clone()).or_insert(v.class());
         if f != v.class() {
@@ -410,6 +428,22 @@ fn lattice_family(ctx: &mut Ctx) {
 }
 
 fn replay(ctx: &mut Ctx, case: &Value) {
+    if case["family"].as_str() == Some("call-sequence") {
+        // the whole sequence is the case (the verdicts depend on what was asked before)
+        call_sequence_family(ctx);
+        return;
+    }
+    if case["family"].as_str() == Some("corpus-relabelings") {
+        if let Some(t) = rs_from_json(&case["variant_sym"]) {
+            ctx.count(true);
+            ctx.ops(1);
+            let v = verdict(&t);
+            if v.class() != 'Y' {
+                ctx.violation("corpus", case.clone(), format!("a relabeling of a known-euclidean symbol (or of its dual) gets {:?}", v), t.n as u64);
+            }
+        }
+        return;
+    }
     if let Some(s) = rs_from_json(&case["sym"]) {
         let corpus = case["family"].as_str() == Some("corpus");
         if let Some(sch) = case["schedule"].as_array() {
